@@ -3,6 +3,7 @@
 package pa
 
 import (
+	"bufio"
 	"fmt"
 	"os"
 	"reflect"
@@ -48,6 +49,12 @@ func expect(e *ent) int64 {
 	}
 	if e.NP == 3 { // two stack-passed arrays instead of (x, s)
 		v += -w.WantX*31 + w.WantArr[0]*31 + w.WantArr2[3]
+	}
+	if e.NP == 5 { // variadic, called with (WantX, WantX+1)
+		v += -w.WantX*31 + 2*31 + w.WantX
+	}
+	if e.NP == 6 { // (f float64, x int64)
+		v += int64(w.WantF * 2)
 	}
 	if e.NP == 4 { // one stack-passed [16]int64
 		v += -w.WantX*31 + w.WantArr16[3]*31
@@ -460,26 +467,42 @@ func runGuards(steps []string) string {
 	return "r=" + strings.Join(res, ",") + " hit=" + strings.Join(hits, ",") + " after=" + clean
 }
 
-// TestVerifC06 runs goom's real method mocking on the operation stream.
+// TestVerifC06 runs goom's real method mocking on the operation stream.  Only the steps (the text before the first " | ")
+// are tokenised; the entry and symbol tables behind it are for the model.
 func TestVerifC06(t *testing.T) {
 	out := vh.OpenOut()
 	defer out.Close()
 	from, _ := strconv.Atoi(os.Getenv("VERIF_C06_FROM"))
-	for _, op := range vh.ReadOps() {
-		if op.Idx < from || len(op.Toks) == 0 || (op.Toks[0] != "c06.hist" && op.Toks[0] != "c06.guard") {
+	f, err := os.Open(os.Getenv("VERIF_OPS"))
+	if err != nil {
+		t.Fatal(err)
+	}
+	defer f.Close()
+	sc := bufio.NewScanner(f)
+	sc.Buffer(make([]byte, 1<<20), 1<<28)
+	for idx := 0; sc.Scan(); idx++ {
+		if idx < from {
 			continue
 		}
-		var steps []string
-		for _, tk := range op.Toks[1:] {
-			if tk == "|" {
-				break
-			}
+		line := sc.Text()
+		if i := strings.Index(line, " | "); i >= 0 {
+			line = line[:i]
+		}
+		toks := strings.Fields(line)
+		if len(toks) == 0 || (toks[0] != "c06.hist" && toks[0] != "c06.guard") {
+			continue
+		}
+		steps := make([]string, 0, len(toks)-1)
+		for _, tk := range toks[1:] {
 			steps = append(steps, strings.ReplaceAll(tk, "@", wireBase))
 		}
-		if op.Toks[0] == "c06.guard" {
-			out.Put(op.Idx, "%s", runGuards(steps))
+		if toks[0] == "c06.guard" {
+			out.Put(idx, "%s", runGuards(steps))
 		} else {
-			out.Put(op.Idx, "%s", runHist(steps))
+			out.Put(idx, "%s", runHist(steps))
 		}
+	}
+	if err := sc.Err(); err != nil {
+		t.Fatal(err)
 	}
 }
